@@ -137,7 +137,8 @@ static void pseudo_store(tcallback callback, Word MaxMultCharLen) {
         switch (t.Typ) {
         case TempFloat:
             WrStrErrorPos(ErrNum_StringOrIntButFloat, pArg);
-            LEAVE;
+            ok = False;
+            break;
         case TempString: {
             unsigned char *cp   = (unsigned char*)t.Contents.str.p_str,
                           *cend = cp + t.Contents.str.len;
